@@ -214,6 +214,25 @@ theorem c06_cadence_lagging_duplicates (s d next t : Int) (hfire : s * next ≤ 
   rw [h1]
   exact RV.Cadence.hb_refire_lagging s d next t hlag
 
+/-- repaired heartbeat (`fixes/C06-cadence-skip-passed-output-times.diff`, model variant selected by a behavioural probe):
+    it is the pinned heartbeat whenever the boundary is less than one interval past the prescribed time ... -/
+theorem c06_cadence_repaired_same_when_not_lagging (s d next t : Int) (hs : s = 1 ∨ s = -1) (hd : 0 < d)
+    (hnl : s * t < s * next + d) :
+    RV.Cadence.hbR RV.Cadence.intOpsR s d next t = RV.Cadence.hb RV.Cadence.intOps s d next t :=
+  RV.Cadence.hbR_eq_hb s d next t hs hd hnl
+
+/-- ... after every snapshot the prescribed time is the next one of the grid strictly ahead of `t` (for ANY ratio of step
+    and interval) ... -/
+theorem c06_cadence_repaired_next_ahead (s d next t : Int) (hs : s = 1 ∨ s = -1) (hd : 0 < d) (hfire : s * next ≤ s * t) :
+    s * t < s * (RV.Cadence.hbR RV.Cadence.intOpsR s d next t).2 ∧ s * (RV.Cadence.hbR RV.Cadence.intOpsR s d next t).2 ≤ s * t + d :=
+  RV.Cadence.hbR_next_ahead s d next t hs hd hfire
+
+/-- ... hence a second heartbeat at the same time never writes the state again -/
+theorem c06_cadence_repaired_never_twice (s d next t : Int) (hs : s = 1 ∨ s = -1) (hd : 0 < d) (hfire : s * next ≤ s * t) :
+    RV.Cadence.hbR RV.Cadence.intOpsR s d (RV.Cadence.hbR RV.Cadence.intOpsR s d next t).2 t
+      = (false, (RV.Cadence.hbR RV.Cadence.intOpsR s d next t).2) :=
+  RV.Cadence.hbR_no_refire s d next t hs hd hfire
+
 /-- cadence, step mode: snapshots exactly at `steps_done = first + j·step` -/
 theorem c06_cadence_step_exact (step : Nat) (hd : 0 < step) (p next : Nat) (ts : List Nat)
     (hinv : p < next) (hc : RV.Cadence.ChainStep step p ts) :
